@@ -25,7 +25,21 @@ def relay_scenarios(ctx):
         scen.append({"id": "relay%d" % len(scen), "kind": "relay", "steps": steps, "src": "tlc"})
     if len(scen) < 100:
         raise Inconclusive("only %d relay scripts generated" % len(scen))
-    return scen
+    # back-pressure: histories in which the environment stalls (and drains) the writes to a side
+    out, _ = ctx.tlc_emit("Relay", "Relay_gen_stall.cfg", tag="SCRIPT", label="environment script generation with write stalls", workers=1, timeout=900)
+    stall = []
+    for _n, hist in out:
+        if not any(h["a"] == "wstall" for h in hist):
+            continue
+        key = json.dumps(hist, sort_keys=True)
+        if key in seen:
+            continue
+        seen.add(key)
+        steps = [{"a": h["a"], "s": h["s"], "k": h["k"], "quiet": h["quiet"], "n": rng.choice(SIZES)} for h in hist]
+        stall.append({"id": "relaystall%d" % len(stall), "kind": "relay", "steps": steps, "src": "tlc-stall"})
+    if len(stall) < 100:
+        raise Inconclusive("only %d relay scripts with stalls generated" % len(stall))
+    return scen, stall
 
 
 def relay_random(ctx, n):
@@ -36,7 +50,9 @@ def relay_random(ctx, n):
         for _ in range(rng.randrange(3, 14)):
             s = rng.choice("AB")
             c = rng.random()
-            if c < 0.7 and s not in ended:
+            if c < 0.08:
+                steps.append({"a": rng.choice(["wstall", "wstall", "drain"]), "s": s, "k": "", "quiet": rng.random() < 0.5})
+            elif c < 0.7 and s not in ended:
                 steps.append({"a": "produce", "s": s, "k": "", "n": rng.choice(SIZES), "quiet": rng.random() < 0.3})
             elif c < 0.8:
                 steps.append({"a": "wfail", "s": s, "k": "", "quiet": rng.random() < 0.5})
@@ -85,17 +101,120 @@ def termmon_scenarios(ctx, maxlen, quick):
     return out
 
 
+def _h(b):
+    return b.hex()
+
+
+def proxydial_scenarios(ctx):
+    """Outgoing-proxy dialers (ProxyDial.tla): tunnels behind a granting proxy under every segmentation class, and
+    every reply class x cut position x early end."""
+    quick = ctx.quick()
+    rng = random.Random(ctx.seed * 7919 + 19)
+    scen = []
+    dests4 = ["192.0.2.7:443", "10.0.0.1:1", "255.255.255.255:65535", "127.0.0.1:80"]
+    dests6 = ["[2001:db8::7]:443", "[::1]:9001"]
+    users = [("", "", False), ("u", "", False), ("user", "pw", True), ("a b:c", "p@ss:w/rd", True), ("x" * 200, "y" * 200, True)]
+
+    def pol(kind=None):
+        kind = kind or rng.choice(["whole", "fixed", "byte", "random", "script"])
+        p = {"mode": kind, "seed": rng.randrange(1 << 30)}
+        if kind == "fixed":
+            p["k"] = rng.choice([1, 2, 3, 7, 8, 9, 16, 100, 1448])
+        if kind == "script":
+            p["list"] = [rng.choice([1, 2, 7, 8, 9, 17, 19, 38, 39, 40, 41, 100]) for _ in range(rng.randrange(1, 6))]
+        if rng.random() < 0.3:
+            p["delay"] = rng.choice([200, 1000])
+        return p
+    sizes = [0, 1, 2, 7, 8, 9, 100, 1448, 4096, 20000]
+    n = 40 if quick else 400
+    for i in range(n):
+        proxy = ("socks4a", "http")[i % 2]
+        user, pw, havepw = users[(i // 2) % len(users)]
+        if proxy == "socks4a":
+            havepw, pw = False, ""
+            user = user.replace("\x00", "")
+        dest = rng.choice(dests4 + (dests6 if proxy == "http" else []))
+        sc = {"cw": [rng.choice(sizes) for _ in range(rng.randrange(0, 4))], "sw": [rng.choice(sizes) for _ in range(rng.randrange(1, 5))],
+              "c2s": pol(), "s2c": pol(), "rbuf": rng.choice([[4096], [1], [7, 1, 4096], [65536]]),
+              "lockstep": rng.random() < 0.3, "quiesce_each": rng.random() < 0.5}
+        # the interesting case: the proxy's reply and the first tunnelled bytes in ONE segment
+        if i % 3 != 2:
+            sc["s2c"]["hold_first_write"] = True
+            if sc["s2c"]["mode"] == "byte":
+                sc["s2c"]["mode"] = "whole"
+        if sc["c2s"]["mode"] == "byte" or sc["s2c"]["mode"] == "byte":
+            sc["cw"] = [min(x, 300) for x in sc["cw"]]
+            sc["sw"] = [min(x, 300) for x in sc["sw"]]
+        scen.append({"id": "pdstream%d" % i, "kind": "stream", "proxy": proxy, "user": user, "pass": pw, "havepass": havepw, "dest": dest,
+                     "destok": True, "style": rng.randrange(3), "script": sc})
+    # replies
+    tail = bytes((i * 37 + 11) & 0xff for i in range(300))
+    replies = []      # (proxy, bytes of the header, verdict)
+    for code, verdict in ((0x5a, "granted"), (0x5b, "rejected"), (0x5c, "rejected"), (0x5d, "rejected"), (0x00, "rejected"), (0xff, "rejected"), (0x59, "rejected")):
+        replies.append(("socks4a", bytes([0, code, 0x1f, 0x90, 192, 0, 2, 1]), verdict))
+    for ver in (0x04, 0x05, 0x01, 0xff):
+        replies.append(("socks4a", bytes([ver, 0x5a, 0, 0, 0, 0, 0, 0]), "badversion"))
+    for st, verdict in (("200 OK", "granted"), ("200 Connection established", "granted"), ("407 Proxy Authentication Required", "rejected"),
+                        ("502 Bad Gateway", "rejected"), ("403 Forbidden", "rejected"), ("201 Created", "rejected"), ("204 No Content", "rejected"),
+                        ("301 Moved", "rejected"), ("500 Internal Server Error", "rejected")):
+        for proto in ("HTTP/1.1", "HTTP/1.0"):
+            hdrs = "" if verdict == "granted" or proto == "HTTP/1.0" else "Content-Length: 0\r\n"
+            replies.append(("http", ("%s %s\r\n%s\r\n" % (proto, st, hdrs)).encode(), verdict))
+    for bad in (b"garbage\r\n\r\n", b"HTTP/1.1 abc OK\r\n\r\n", b"SSH-2.0-OpenSSH_9.0\r\n\r\n", b"\x00\x5a\x00\x00\x00\x00\x00\x00\r\n\r\n", b"HTTP/1.1 200\r\nbroken header line\r\n\r\n"):
+        replies.append(("http", bad, "malformed"))
+    j = 0
+    for proxy, hdr, verdict in replies:
+        trails = (0, 5, 300) if verdict == "granted" else (0,)
+        cutsets = [[]] + [[k] for k in range(1, len(hdr))] if len(hdr) <= 8 or not quick else [[]] + [[k] for k in sorted(set([1, 2, 8, 9, 12, 13, len(hdr) - 4, len(hdr) - 2, len(hdr) - 1]))]
+        cutsets += [[1] * (len(hdr) - 1), [len(hdr)]]          # byte by byte; header alone, then the tunnel
+        for tl in trails:
+            body = hdr + tail[:tl]
+            for cuts in cutsets:
+                if tl == 0 and cuts == [len(hdr)]:
+                    continue
+                for eof in (False, True):
+                    if eof and verdict == "granted" and tl > 0 and rng.random() < 0.5:
+                        continue
+                    scen.append({"id": "pdreply%d" % j, "kind": "reply", "proxy": proxy, "user": "u" if j % 2 else "", "pass": "", "havepass": False,
+                                 "dest": dests4[j % len(dests4)], "destok": True, "reply": _h(body), "hdrlen": len(hdr), "verdict": verdict,
+                                 "cuts": cuts, "eof": eof})
+                    j += 1
+        # the reply ends early: every prefix followed by EOF, and every prefix followed by silence
+        for k in (range(0, len(hdr)) if len(hdr) <= 8 or not quick else sorted(set([0, 1, 8, 12, len(hdr) - 2, len(hdr) - 1]))):
+            for eof in (True, False):
+                scen.append({"id": "pdreply%d" % j, "kind": "reply", "proxy": proxy, "user": "", "pass": "", "havepass": False, "dest": dests4[j % 4], "destok": True,
+                             "reply": _h(hdr[:k]), "hdrlen": len(hdr), "verdict": verdict, "cuts": [], "eof": eof})
+                j += 1
+    # destinations a SOCKS4 proxy cannot express, connection failures
+    for d in ("[2001:db8::7]:443", "bridge.example.com:443", "192.0.2.7", "192.0.2.7:65536", "192.0.2.7:-1", "192.0.2.7:http", ":443", "[::ffff:192.0.2.7]:443"):
+        ok = d == "[::ffff:192.0.2.7]:443"        # an IPv4-mapped address IS expressible (To4)
+        scen.append({"id": "pdreply%d" % j, "kind": "reply", "proxy": "socks4a", "user": "", "pass": "", "havepass": False, "dest": d, "destok": ok,
+                     "reply": "005a000000000000", "hdrlen": 8, "verdict": "granted", "cuts": [], "eof": False})
+        j += 1
+    for proxy in ("socks4a", "http"):
+        for k in ("connectfail", "writefail"):
+            scen.append({"id": "pdreply%d" % j, "kind": "reply", "proxy": proxy, "user": "", "pass": "", "havepass": False, "dest": "192.0.2.7:443", "destok": True,
+                         "reply": "", "hdrlen": 8, "verdict": "granted", "cuts": [], "eof": False, k: True})
+            j += 1
+    return scen
+
+
 def run(ctx):
     quick = ctx.quick()
     ctx.tlc_expect_ok("Relay", "Relay_MC.cfg", label="relay exhaustive (safety + liveness)", timeout=1200)
     ctx.tlc_expect_ok("TermMon", "TermMon_intended.cfg", label="termmon exhaustive, intended design (safety + liveness)")
     ctx.tlc_expect_violation("TermMon", "TermMon_asis.cfg", "NeverStuck", workers=1)
     binary = ctx.go_test_build("obfs4proxy")
-    relay = relay_scenarios(ctx)
+    ctx.tlc_expect_ok("Relay", "Relay_stall.cfg", label="relay with back-pressure (write stalls / drains): safety + liveness", timeout=1200)
+    ctx.tlc_expect_violation("Relay", "Relay_stall_nosrc.cfg", "NeverWedged", workers=1)
+    relay, stall = relay_scenarios(ctx)
     if quick:
         rng = random.Random(ctx.seed)
         rng.shuffle(relay)
-        relay = relay[:400]
+        rng.shuffle(stall)
+        relay = relay[:400] + stall[:300]
+    else:
+        relay += stall
     relay += relay_random(ctx, 100 if quick else 1500)
     tm = termmon_scenarios(ctx, 5 if quick else 7, quick)
     if quick and len(tm) > 500:
@@ -144,6 +263,24 @@ def run(ctx):
         return rej[0] if rej else None
     ctx.settle(hrej, hreexec, lambda tr: "real clientHandler/serverHandler run rejected at event %s: %s" % (
         tr["reject"]["at_event_index"], json.dumps(tr["reject"]["event"])), attempts=2)
+    # growth: the outgoing-proxy dialers behind the relay's remote side (ProxyDial.tla)
+    ctx.tlc_expect_ok("ProxyDial", "ProxyDial_socks4.cfg", label="proxy dial, exact reader (SOCKS4): safety + liveness")
+    ctx.tlc_expect_ok("ProxyDial", "ProxyDial_http.cfg", label="proxy dial, buffered reader (HTTP CONNECT): safety + liveness")
+    ctx.tlc_expect_violation("ProxyDial", "ProxyDial_http_dropstale.cfg", "NothingSkipped", workers=1)
+    pscen = proxydial_scenarios(ctx)
+    ptr = ctx.exec_scenarios(binary, pscen, "proxydial", testbin="TestVerifProxyDial", shards=12, timeout=1500)
+    ptr = ctx.drop_dead(ptr)
+    ctx.sample({"group": "proxydial", "scenario": {k: v for k, v in ptr[-1]["scenario"].items() if k != "script"}, "events": ptr[-1]["events"][:6]})
+    prej = ctx.validate("ProxyDialTrace", "ProxyDialTrace.cfg", ptr, label="trace validation: proxy dialers", timeout=1800)
+    ctx.log("proxydial: %d traces (%d tunnels, %d scripted replies), %d rejected" % (
+        len(ptr), sum(1 for x in pscen if x["kind"] == "stream"), sum(1 for x in pscen if x["kind"] == "reply"), len(prej)))
+
+    def preexec(tr):
+        t2 = ctx.exec_scenarios(binary, [tr["scenario"]], "proxydial-re", testbin="TestVerifProxyDial")
+        rej = ctx.validate("ProxyDialTrace", "ProxyDialTrace.cfg", t2, label="re-validation")
+        return rej[0] if rej else None
+    ctx.settle(prej, preexec, lambda tr: "real proxy dialer run rejected at event %s: %s (scenario %s)" % (
+        tr["reject"]["at_event_index"], json.dumps(tr["reject"]["event"]), json.dumps({k: v for k, v in tr["scenario"].items() if k != "script"})[:400]), attempts=2)
     ctx.assumptions += ["connections handed to copyLoop are harness objects (no ReaderFrom/WriterTo fast paths, as for obfs4 conns)",
                         "'blocked for good' = monitor goroutine in select per runtime.Stack and no sender pending in the harness",
                         "signals are offered on termMonitor.sigChan directly (the channel os/signal delivers to)"]
@@ -155,9 +292,14 @@ def run(ctx):
 def replay(ctx, path):
     v = json.load(open(path))
     binary = ctx.go_test_build("obfs4proxy")
-    kind = v["scenario"]["kind"]
-    mod = "RelayTrace" if kind == "relay" else "TermMonTrace"
-    traces = ctx.exec_scenarios(binary, [v["scenario"]], "replay", testbin="TestVerifC19")
+    kind = v["scenario"].get("kind")
+    if "cases" in v["scenario"]:
+        mod, tb = "HandlerTrace", "TestVerifHandlers"
+    elif kind in ("stream", "reply"):
+        mod, tb = "ProxyDialTrace", "TestVerifProxyDial"
+    else:
+        mod, tb = ("RelayTrace" if kind == "relay" else "TermMonTrace"), "TestVerifC19"
+    traces = ctx.exec_scenarios(binary, [v["scenario"]], "replay", testbin=tb)
     for t in ctx.validate(mod, mod + ".cfg", traces, label="replay", deque=True):
         ctx.report_violation(t, "replayed scenario rejected")
     return ctx.finish("model_checking")
